@@ -426,3 +426,52 @@ class RuleProxy:
     @tables.setter
     def tables(self, v):
         self._R.tables = v
+
+
+def decode_tables_rule(F, R, rule, prefixes):
+    """Reader and writer tables agree: a conversion defined on a field-less enum (inherent fn / From / TryFrom taking one
+    integer) maps each integer it accepts to the variant whose discriminant is that integer - the discriminants are the
+    specification codes the encoding direction (`as` casts, `into`) uses."""
+    import re as _re
+    from ..paths import PathEnum, PathLimit
+    n = 0
+    for b in F.bodies.values():
+        if not F.handwritten(b) or b['kind'] != 'AssocFn' or b['arg_count'] != 1:
+            continue
+        if b['locals'][1]['ty'] not in ('u8', 'u16', 'u32', 'u64', 'usize'):
+            continue
+        rty = b['locals'][0]['ty']
+        m = _re.search(r'<([\w:]+)(?:, [^>]*)?>$', rty) if (rty.startswith('core::option::Option<') or rty.startswith('core::result::Result<')) else _re.match(r'^([\w:]+)$', rty)
+        if not m:
+            continue
+        e = m.group(1)
+        a = F.adts.get(e)
+        if not a or a['kind'] != 'enum' or any(v['fields'] for v in a['variants']) or not any(e.startswith(p_) for p_ in prefixes):
+            continue
+        if not (b.get('impl_adt') == e or e in (b.get('impl_self') or '')):
+            continue
+        # only enums whose discriminants are explicit codes (not the implicit 0..n-1 numbering, which a harmless reordering
+        # of the variants would change)
+        if max(int(v.get('discr', 0)) for v in a['variants']) < len(a['variants']):
+            continue
+        sg = supergraph(F, b['id'])
+        try:
+            paths = PathEnum(sg).run()
+        except PathLimit:
+            continue
+        rows = []
+        for p in paths:
+            if p.panicked or p.ret is None:
+                continue
+            vs = [x for x in subterms(p.ret) if x[0] == 'agg' and x[1].startswith(e + '::')]
+            consts = [c[1][1] for c in p.conds if strip_conv(c[0]) == ('param', 1) and c[1][0] == 'in' and len(c[1][1]) == 1]
+            if vs and consts:
+                rows.append((consts[-1][0], vs[0][1]))
+        if len(rows) < 2:
+            continue
+        n += 1
+        bad = ['%#x -> %s (= %#x)' % (v, var.rsplit('::', 1)[1], VARIANT_DISCR.get(var, -1)) for v, var in rows if VARIANT_DISCR.get(var) != v]
+        R.tables += len(rows)
+        R.check(not bad, rule, 'decode:%s' % b['id'], fn_site(F, b['id']), 'each of the %d accepted codes decodes to the variant with that discriminant' % len(rows),
+                'decoding table disagrees with the enum\'s codes: %s' % ', '.join(bad))
+    R.count('decode_tables', n)
